@@ -428,7 +428,7 @@ fn run_batch(mode: u64, bi: usize, specs: &[Spec]) {
         }
     }
     rec(R_QUIESCE, bi as u32, [0; 7]);
-    if mode != MODE_TRACED {
+    if mode & MODE_TRACED == 0 {
         // native run: no barrier available, give detached threads time to finish
         let _ = tiny_std::thread::sleep(Duration::from_millis(50));
     }
@@ -464,6 +464,9 @@ pub fn main() -> i32 {
         rec(R_BAD_ARGS, 0, [0; 7]);
         return 3;
     };
+    if mode & MODE_NO_QUARANTINE != 0 {
+        ALLOC.no_quarantine();
+    }
     ALLOC.set_baseline();
     let l = ALLOC.ledger();
     rec(R_BASELINE, 0, [l.live_count, l.live_bytes, 0, 0, 0, 0, 0]);
